@@ -63,7 +63,11 @@ Record member := {
   m_ns  : nsval;             (* cls.__dict__.get(name) *)
   m_df  : option bfield;     (* cls.__dict__.get('__dataclass_fields__', {}).get(name) *)
   m_nullty : bool;           (* type in (Any, None, NoneType) / Optional / unbound TypeVar *)
-  m_ident  : bool            (* the unpacker expression is the bare "value" *)
+  m_ident  : bool;           (* the unpacker expression is the bare "value" *)
+  m_alias  : option string;  (* resolved alias of the field (field_options / Annotated Alias / Config.aliases) *)
+  m_unull  : bool            (* the Optional is hidden behind a wrapper (Annotated / Final / PEP 695 alias): the field
+                                block sees a non-nullable type and the unpacker expression itself maps None to None
+                                (expr_or_maybe_none, could_be_none=True) *)
 }.
 Definition layout := list member.
 
@@ -97,16 +101,38 @@ Inductive passing := PSkip | PPos | PKw | PKwargs.
 
 Section WithConv.
 Variable conv : string -> pv -> pv.     (* the converting unpacker expression of a field *)
+Variable nba : bool.                    (* Config.allow_deserialization_not_by_alias *)
+Variable st : bool.                     (* true = the in_kwargs flag of the assembly loop is sticky (the real code);
+                                           false = it is reset by every block (proved equivalent below) *)
+
+(* builder.py 1348-1381: which key of the input a field is read from.  d.get(k, MISSING): a key holding
+   null is PRESENT *)
+Definition rd (m: member) (d: inp) : option pv :=
+  match m_alias m with
+  | Some a =>
+      if nba then match lookup a d with Some v => Some v | None => lookup (m_name m) d end
+      else lookup a d
+  | None => lookup (m_name m) d
+  end.
+Definition keys_of (m: member) : list string :=
+  match m_alias m with
+  | Some a => if nba then [a; m_name m] else [a]
+  | None => [m_name m]
+  end.
+
+(* the unpacker expression applied to a value that reaches it *)
+Definition uconv (m: member) (v: pv) : pv :=
+  if m_unull m && is_none v then PNone else conv (m_name m) v.
 
 Definition field_block (m: member) (d: inp) : fb :=
   let df := seen_default m in
-  match lookup (m_name m) d with
+  match rd m d with
   | None => if has_dflt df then FbSkip else FbMissing
   | Some v =>
       if m_ident m then FbSet v
       else if nullable m && is_none v
            then (if has_dflt df && dflt_is_none df then FbSkip else FbSet PNone)
-           else FbSet (conv (m_name m) v)
+           else FbSet (uconv m v)
   end.
 
 (* one pass over the type hints: mk = missing_kw_only (sticky), ik = in_kwargs (sticky);
@@ -123,7 +149,7 @@ Fixpoint plan (ms: list member) (mk ik: bool) (d: inp) : string + list (member *
       | x =>
         let dfl := has_dflt (seen_default m) in
         let p := if dfl then PKwargs else if kwo || ik then PKw else PPos in
-        match plan r mk' (dfl || ik) d with
+        match plan r mk' (st && (dfl || ik)) d with
         | inl f => inl f
         | inr l => inr ((m, p, x) :: l)
         end
@@ -231,23 +257,25 @@ Definition decode (L: layout) (d: inp) (c: nat) : outcome :=
 (* ---------- reference semantics (README: absent -> default, present -> converted value) ---------- *)
 Definition required (m: member) : bool :=
   hinted m && m_field m && m_param m && negb (has_dflt (m_def m)).
-Definition tnullable (m: member) : bool := m_nullty m || dflt_is_none (m_def m).
+Definition tnullable (m: member) : bool := m_nullty m || m_unull m || dflt_is_none (m_def m).
 Definition eff_conv (m: member) (v: pv) : pv :=
   if m_ident m then v else if tnullable m && is_none v then PNone else conv (m_name m) v.
 
-Definition has_key (k: string) (d: inp) : bool :=
-  match lookup k d with Some _ => true | None => false end.
+(* the documented key rule: the alias key, with allow_deserialization_not_by_alias the field name as
+   fall-back when the alias key is absent; a key holding null is present *)
+Definition has_key (m: member) (d: inp) : bool :=
+  match rd m d with Some _ => true | None => false end.
 
 Fixpoint first_missing (L: layout) (d: inp) : option string :=
   match L with
   | [] => None
-  | m :: r => if required m && negb (has_key (m_name m) d) then Some (m_name m)
+  | m :: r => if required m && negb (has_key m d) then Some (m_name m)
               else first_missing r d
   end.
 
 Definition ref_sel (d: inp) (m: member) : option pv :=
   if hinted m && m_param m
-  then match lookup (m_name m) d with Some v => Some (eff_conv m v) | None => None end
+  then match rd m d with Some v => Some (eff_conv m v) | None => None end
   else None.
 Definition ref_bound (L: layout) (d: inp) : list (string * pv) := selmap m_name (ref_sel d) L.
 
